@@ -6,6 +6,7 @@
 -/
 import RbModel.Buf
 import RbModel.Lemmas.Mem
+import RbModel.Props.C16
 
 namespace RbModel.Buf
 open RbModel.Mem
@@ -121,3 +122,40 @@ example : (match (do let l ← copyWithinBwd [⟨1,0,0,0,0⟩, ⟨2,0,0,0,0⟩, 
     | .error _ => false) = true := by decide
 
 end RbModel.Buf
+
+
+/-! ## The default shaper conserves characters (corollary of C16_default, Pipeline model)
+
+For a font without layout tables and a text of plain characters that all have glyphs, the output of the whole
+pipeline model (`Pipeline.shape`: cmap, clusters, direction handling, positioning) is — read as (glyph, cluster) pairs —
+exactly the input's (cmap glyph, cluster) pairs, in logical order or reversed: nothing lost, nothing duplicated,
+nothing moved to another cluster.  The dedicated shapers' conservation is: Hangul `C12_model_refines_spec`,
+normalizer `C09_decompose_equiv` / `C09_cluster`, Thai `C08_thai_rotate_perm`; the syllabic shapers are search only. -/
+namespace RbModel.Pipeline
+
+theorem C08_default_shaper_conserves (u : Ucd) (f : Font) (c : Cfg) (text : List (Nat × Nat))
+    (hscope : ∀ t ∈ text, u.norm t.1 = false ∧ u.mcc t.1 = 0)
+    (hplain : ∀ t ∈ text, PlainChar u t.1)
+    (hnoDI : ∀ t ∈ text, u.isDI t.1 = false)
+    (hglyph : ∀ t ∈ text, (nominal f (rotCp u f c t.1)).isSome = true) :
+    ∃ out, shape u f c text = .ok out ∧
+      (out.map fun g => (g.gid, g.cluster)).Perm
+        (text.map fun t => ((nominal f (rotCp u f c t.1)).getD 0, t.2)) ∧
+      out.length = text.length := by
+  refine ⟨_, C16_default u f c text hscope hplain hnoDI hglyph, ?_, ?_⟩
+  · have hmap : (text.map (glyphOf u f c)).map (fun g => (g.gid, g.cluster))
+        = text.map fun t => ((nominal f (rotCp u f c t.1)).getD 0, t.2) := by
+      rw [List.map_map]
+      apply List.map_congr_left
+      intro t _
+      have := C16_default_fields u f c t
+      simp only [Function.comp]
+      exact Prod.ext this.1 this.2.1
+    by_cases hb : c.dir.isBackward = true
+    · simp only [hb, if_true, List.map_reverse, hmap]
+      exact List.reverse_perm _
+    · simp only [hb, Bool.false_eq_true, if_false, hmap]
+      exact List.Perm.refl _
+  · by_cases hb : c.dir.isBackward = true <;> simp [hb]
+
+end RbModel.Pipeline
